@@ -20,7 +20,7 @@ from bqskit.ir.circuit import Circuit
 from bqskit.ir.gates.circuitgate import CircuitGate
 from bqskit.ir.operation import Operation
 from vf import rt
-from vf.circ_oracle import DOCUMENTED, TG, Viol, check_invariant, flat_of, top_seqs
+from vf.circ_oracle import DOCUMENTED, TG, Viol, check_invariant, flat_iter, flat_of, top_seqs
 
 KINDS = [
     'append_gate', 'insert_gate', 'pop', 'pop_last', 'replace_gate', 'remove', 'pop_cycle',
@@ -98,24 +98,30 @@ def build_pre(W: int, npre: int, xs: list[int], tags: Tags) -> Circuit | None:
     arity code 4 = a folded block of two sequential 1-qudit ops on q0 (CircuitGate);
     then an optional pop at (xs[-2], xs[-1]) (xs[-2] < 0: no pop) to open gaps."""
     circ = Circuit(W)
+    pins = rt.SHARD.get('pin', {})      # {"<index into xs>": value}: shards a big obligation by pinning inputs
+
+    def px(idx: int, lo: int, hi: int) -> Any:
+        if str(idx) in pins:
+            v = int(pins[str(idx)])
+            return v if lo <= v <= hi else None
+        return rt.P(xs[idx], lo, hi)
     for i in range(npre):
-        a, q0, q1, q2, c = xs[5 * i: 5 * i + 5]
         codes = [k for k in rt.SHARD.get('codes', [1, 2, 3, 4, 5, 6])
                  if not ((k in (2, 5, 6) and W < 2) or (k == 3 and W < 3))]
-        ai = rt.P(a, 0, len(codes) - 1)
+        ai = px(5 * i, 0, len(codes) - 1)
         if ai is None:
             return None
         a = codes[ai]
-        q0 = rt.P(q0, 0, W - 1)
+        q0 = px(5 * i + 1, 0, W - 1)
         if q0 is None:
             return None
-        q1 = rt.P(q1, 0, W - 1 if a in (2, 3, 5, 6) else 0)
+        q1 = px(5 * i + 2, 0, W - 1 if a in (2, 3, 5, 6) else 0)
         if q1 is None:
             return None
-        q2 = rt.P(q2, 0, W - 1 if a == 3 else 0)
+        q2 = px(5 * i + 3, 0, W - 1 if a == 3 else 0)
         if q2 is None:
             return None
-        c = rt.P(c, 0, circ.num_cycles)
+        c = px(5 * i + 4, 0, circ.num_cycles)
         if c is None:
             return None
         if a == 4:
@@ -806,6 +812,11 @@ def check_after(circ: Circuit, kind: str, o: Outcome, oracle: str, before_flat: 
     # order oracle
     try:
         got = flat_of(subj)
+        if flat_iter(subj) != got:
+            # the simulation order (iteration) no longer agrees with the grid: a different unitary
+            rt.log('grid timelines', got)
+            rt.log('iteration timelines', flat_iter(subj))
+            return '%s:iteration-order-differs-from-grid' % kind
     except Exception as e:
         return '%s:read-api-raised:%s' % (kind, type(e).__name__)
     exp = o.expect
